@@ -311,3 +311,4 @@ def run(ck):
     from rules import C02
     C02.rule_exit_siblings(ck)
     C02.rule_hibernate_table(ck)
+    C02.rule_breakpoint_owner(ck)
